@@ -72,6 +72,7 @@ type world struct {
 	gate   chan struct{}
 	w      *bufio.Writer
 	sctr   uint32
+	recyc  int
 	tmo    int // sentinel timeouts seen
 	counts map[string]int
 	lens   [8]int
@@ -268,6 +269,18 @@ func (w *world) inject(proto tcpip.NetworkProtocolNumber, pkt []byte, chunks []i
 			panicked = true
 		}
 	}()
+	// an unfragmented IPv4 ICMP packet is answered from a copy taken during the call (icmp.go
+	// handleICMP: vv.ToView() before the request is queued for the echoReplier goroutine), so the
+	// sender may re-use its buffer as soon as the call returns: every second such packet is
+	// delivered from a buffer that is overwritten right after delivery
+	if proto == netx.ProtoIPv4 && len(pkt) >= 20 && pkt[9] == 1 && (binary.BigEndian.Uint16(pkt[6:])&0x3fff) == 0 {
+		w.recyc++
+		if w.recyc%2 == 0 {
+			w.n.L.InjectRecycled(proto, pkt, chunks...)
+			w.count("recycled-buffer")
+			return
+		}
+	}
 	w.n.L.Inject(proto, pkt, chunks...)
 	return
 }
